@@ -87,6 +87,11 @@ def all_cells():
     for hook_state in ("LOGON_INITIAL_RECV",):
         for cls in ("app", "exec", "hb", "rr", "custom"):
             cells.append(("A-send-in-logon", "acceptor", hook_state, cls, 0))
+            # ... on the second connection of an object whose first one it ended itself with a Logout as first frame
+            cells.append(("A-send-in-logon", "acceptor", hook_state, cls, "second"))
+            # ... and from inside the callback of the initiator's own first Logon (generic connection class: the role is not declared)
+            cells.append(("A-send-in-logon", "initiator", "LOGON_INITIAL_SENT", cls, "generic"))
+            cells.append(("A-send-in-logon", "initiator", "LOGON_INITIAL_SENT", cls, 0))
     # B: integrity defects
     for role in ("acceptor", "initiator"):
         for st in ("prelogon", "active", "awaiting"):
@@ -445,11 +450,37 @@ async def cell_A_send_in_logon(acc, clock, cell, cid):
     from asyncfix import FIXMessage
     from asyncfix.errors import FIXConnectionError
     from vf.sim.net import settle
-    _, role, hook_state, cls, _ = cell
-    b = await build(clock, role, "nce")
-    if b is None:
-        return
-    ep, j, peer = b
+    _, role, hook_state, cls, prior = cell
+    from asyncfix.connection import ConnectionState as CS
+    from vf.sim import endpoint as E
+    from vf.sim.net import advance
+    if prior == "generic":
+        from asyncfix import Journaler
+        j = Journaler()
+        ep = E.new_endpoint("generic", "ME", "PEER", j, hb=30, name="ME")
+        peer = E.Peer("PEER", "ME")
+        E.attach(ep, clock)
+        E.start_reader(ep)
+    else:
+        b = await build(clock, role, "nce")
+        if b is None:
+            return
+        ep, j, peer = b
+    if prior == "second":
+        # the first connection came from a stranger and was refused with a Logout stating the reason (this side's first frame)
+        ep.vf_reader.feed(mkframe("A", 1, "STRANGER", "ME", [(98, 0), (108, 30)]))
+        await settle()
+        if ep.connection_state > CS.DISCONNECTED_BROKEN_CONN:
+            acc.add("start_state_not_reached")
+            return
+        E.attach(ep, clock)
+        if ep.vf_read_task.done():
+            E.start_reader(ep)
+        else:
+            await advance(1.1)
+        peer.next_out = ep._session.next_num_in
+        acc.add("sends_from_the_logon_callback_on_a_second_connection")
+    tap_start = len(ep.vf_tap)
     res = []
 
     async def on_state(st):
@@ -464,21 +495,27 @@ async def cell_A_send_in_logon(acc, clock, cell, cid):
             except Exception as e:
                 res.append((f"raised:{type(e).__name__}", before, None))
     ep.vf_hooks["on_state_change"] = on_state
-    ep.vf_reader.feed(peer.logon())
+    if role == "initiator":
+        try:
+            await ep.send_msg(FIXMessage("A", {98: 0, 108: 30}))
+        except Exception as e:
+            return acc.violation(f"first-logon-raised:{type(e).__name__}", repr(e), {"cell": cell}, cid)
+    else:
+        ep.vf_reader.feed(peer.logon())
     await settle()
     acc.oracle("A:send-refused")
-    w = {"cell": cell, "result": [str(r) for r in res], "tap": [fixwire.show(x)[:90] for x in ep.vf_tap.frames()], "state": ep.connection_state.name}
+    w = {"cell": cell, "result": [str(r) for r in res], "tap": [fixwire.show(x)[:90] for x in ep.vf_tap.frames(tap_start)], "state": ep.connection_state.name}
     if not res:
         acc.add("hook_state_not_reached")
         return
     r = res[0]
     if r[0] == "accepted":
-        return acc.violation("send-accepted-before-logon-answered", f"{cls} sent from inside the Logon processing ({hook_state}) was accepted and went out before the Logon reply", w, cid)
+        return acc.violation("send-accepted-before-logon-answered" + {0: "", "second": ":stale-role-from-an-earlier-connection", "generic": ":own-logon-callback-role-not-yet-set"}[prior], f"{cls} sent from inside the Logon processing ({hook_state}) was accepted and went out before the Logon reply", w, cid)
     if r[0].startswith("raised"):
         return acc.violation(f"send-raised-other:{r[0][7:]}", f"{cls} in {hook_state}", w, cid)
     if r[1] != r[2]:
         return acc.violation("refused-send-has-effects:logon_recv", f"tap/counter {r[1]} -> {r[2]}", w, cid)
-    first = fixwire.parse(ep.vf_tap.frames()[0]) if ep.vf_tap.frames() else []
+    first = fixwire.parse(ep.vf_tap.frames(tap_start)[0]) if ep.vf_tap.frames(tap_start) else []
     if fixwire.get(first, 35) != "A":
         return acc.violation("first-frame-not-logon", f"first frame on the wire is 35={fixwire.get(first, 35)}", w, cid)
 
